@@ -23,6 +23,7 @@ THEOREMS = [
     'C12.visible_text_counterexample', 'C12.chunk_count_partial', 'C12.chunk_count_counterexample',
     'C12.colour_ok', 'C12.coherent_clean', 'C12.ircWrap_fits_clean', 'C12.fits_512_clean',
     'C12.visible_text_clean', 'C12.reply_text_clean',
+    'C12.two_requesters', 'C12.more_protocol_interleaved', 'C12.adopt_copy',
 ]
 TRUSTED = ['Lean 4.33.0 kernel; axioms ⊆ {propext, Classical.choice, Quot.sound}',
            'harness/extractors/reply.py (constants of splitBytes, FormatContext, FormatParser, reply, _makeReply → Gen/Reply.lean)',
@@ -398,15 +399,35 @@ class Live(object):
         mask = inp['prefix'].split('!', 1)[1]
         stored = b.callbacks.IrcObjectProxy._mores.get(mask)
         stored = None if stored is None else list(stored)
-        batches = []
-        for _ in range(MAX_MORES):
-            bt = bot.feed(b, inp['prefix'], inp['target'], '@more' if chan else 'more')
-            batches.append(bt)
-            if not any(m.command in ('PRIVMSG', 'NOTICE') and _suffix_re.search(m.args[1]) for m in bt):
-                # the last chunk (no suffix) or an error: one more call must say there is no more
-                if any(ERR_NOMORE in m.args[-1] or 'You haven' in m.args[-1] for m in bt) or not bt:
-                    break
-        return first, stored, batches, list(self.spy)
+        who = {'A': inp['prefix'], 'B': inp.get('prefixB'), 'C': inp.get('prefixC')}
+        anick = inp['prefix'].split('!', 1)[0]
+        steps = []        # (who, nick argument or None, code, messages)
+
+        def do(w, nickarg):
+            txt = ('@more' if chan else 'more') + ((' "%s"' % nickarg) if nickarg else '')
+            bt = bot.feed(b, who[w], inp['target'], txt)
+            code, real = more_code(bt)
+            steps.append((w, nickarg, code, real))
+            return code
+        for w, kind in inp.get('actions', []):
+            do(w, inp.get('nickref', anick) if kind == 'moreA' else None)
+        for _ in range(MAX_MORES):      # A pages through the rest
+            if do('A', None) != 'sent':
+                break
+        return first, stored, steps, list(self.spy)
+
+
+def more_code(bt):
+    """what a `more` call answered: ('sent', messages) or an error code"""
+    real = [m for m in bt if m.command in ('PRIVMSG', 'NOTICE')]
+    texts = [m.args[-1] for m in real]
+    if any(ERR_NOMORE in t for t in texts): return 'nomore', []
+    if any("You haven't asked me a command" in t for t in texts): return 'notasked', []
+    if any('has no public mores' in t for t in texts): return 'nopublic', []
+    if any("can't find any mores" in t for t in texts): return 'cantfind', []
+    if not real: return 'nothing', []
+    if any('Error: ' in t for t in texts): return 'error', []
+    return 'sent', real
 
 
 def live():
@@ -457,7 +478,7 @@ ERR_NOMORE = "That's all, there is no more."
 def live_case(I, L, inp, kind='live'):
     """run one reply + mores on the live bot; return (Case, phase-1 driver line, function building phase-2 lines)"""
     b = L.b
-    first, stored, batches, spy = L.run(inp)
+    first, stored, steps, spy = L.run(inp)
     cfg = inp['cfg']
     safe = b.ircutils.safeArgument(inp['text'])
     is_msg = lambda m: m.command in ('PRIVMSG', 'NOTICE')
@@ -472,12 +493,44 @@ def live_case(I, L, inp, kind='live'):
         s1 = None
         parts.append('single')
     parts.append('sent\t%s\t%s' % (enc_msgs(first), '~' if stored is None else enc_msgs(stored)))
-    delivered = list(first)
-    for bt in batches:
-        real = [m for m in bt if is_msg(m) and not m.args[1].endswith(ERR_NOMORE) and 'You haven' not in m.args[1]]
-        parts.append(enc_msgs(real))
-        delivered += real
+    delivered = list(first)        # the stream of the requester (and of whoever shares his user@host)
+    for (w, nickarg, code, real) in steps:
+        parts.append('sent\t' + enc_msgs(real) if code == 'sent' else code)
+        if w in ('A', 'C') and code == 'sent':
+            delivered += real
     impl = '\n'.join(parts)
+    batches = [real for (w, nickarg, code, real) in steps if w in ('A', 'C')]
+    # ---- the other caller: `more <A>` must give him, in order, what A had not been given yet, and
+    #      must not take anything away from A (checked below on A's own stream)
+    bsegs = []
+    if inp.get('actions'):
+        tags.append('live:two-callers')
+        pos = None
+        got_a = len(first)
+        a_private = not inp['target'].startswith('#') or bool(inp['kw'].get('private'))
+        for (w, nickarg, code, real) in steps:
+            if w in ('A', 'C'):
+                got_a += len(real)
+                if w == 'C': tags.append('live:same-hostmask')
+                continue
+            if nickarg:
+                tags.append('live:more-nick')
+                if stored is None:
+                    if code not in ('cantfind', 'nopublic'):
+                        fails.append((None, 'B: more %s although nothing was stored answered %s' % (nickarg, code)))
+                    continue
+                if a_private:
+                    if code != 'nopublic':
+                        fails.append((None, 'B: more %s on a private reply answered %s' % (nickarg, code)))
+                    tags.append('live:no-public-mores')
+                    continue
+                pos = got_a
+            if pos is None:
+                if code != 'notasked':
+                    fails.append((None, 'B: more without a reply of his own answered %s' % code))
+                continue
+            bsegs.append((pos, [enc_msg(m) for m in real], code))
+            pos += len(real)
     # ---- property oracle on the implementation
     n = len(delivered)
     if not first or not all(is_msg(m) for m in delivered):
@@ -538,10 +591,17 @@ def live_case(I, L, inp, kind='live'):
             fails.append((F_MAX, '%d messages for reply.mores.maximum=%d' % (n, cfg['maximum'])))
             tags.append('class:' + F_MAX)
         # after the last chunk, more says there is no more
-        if spy and len(batches) < MAX_MORES:
-            last = batches[-1] if batches else []
-            if not any(ERR_NOMORE in m.args[-1] or 'You haven' in m.args[-1] for m in last):
-                fails.append((None, 'more after the last chunk answered %r' % [str(m) for m in last]))
+        acodes = [code for (w, nickarg, code, real) in steps if w == 'A']
+        if spy and len(acodes) < MAX_MORES and (not acodes or acodes[-1] not in ('nomore', 'notasked')):
+            fails.append((None, 'more after the last chunk answered %r' % (acodes[-1:],)))
+    full = [enc_msg(m) for m in delivered]
+    for (pos, got, code) in bsegs:
+        want = full[pos:pos + len(got)] if got else []
+        if got != want or (code == 'nomore' and pos < len(full)) or (code == 'sent' and not got):
+            fails.append((None, 'the other caller, after more <nick> at position %d of %d, was given %s instead of the '
+                          'requester\'s messages %d.. (the requester\'s own stream has %d messages)'
+                          % (pos, len(full), code if not got else '%d messages not matching' % len(got), pos, len(full))))
+            break
     if spy:
         tags.append('live:chunked')
         tags.append('live:chunks%s' % ('1' if n == 1 else '2-5' if n <= 5 else '6-20' if n <= 20 else '21+'))
@@ -559,14 +619,19 @@ def live_case(I, L, inp, kind='live'):
     env = env_fields(L, inp)
     prep_line = 'prep\t%s\t%s\t%s' % (wire.enc(safe), '\t'.join(cfg_fields(inp)), '\t'.join(env))
 
+    amask = inp['prefix'].split('!', 1)[1]
+
     def phase2(prep_out):
         f = prep_out.split('\t')
         if len(f) == 3 and f[2] == '0':
             ch = I.chunks(wire.dec(f[1]))
         else:
             ch = []
-        lines = ['clear', 'reply\t%s\t%s\t%s\t%s' % (wire.enc(safe), wire.enc_list(ch), '\t'.join(cfg_fields(inp)), '\t'.join(env))]
-        lines += ['more\t%d' % cfg['batch']] * len(batches)
+        lines = ['clear', 'reply\t%s\t%s\t%s\t%s\t%s' % (wire.enc(amask), wire.enc(safe), wire.enc_list(ch),
+                                                          '\t'.join(cfg_fields(inp)), '\t'.join(env))]
+        prefixes = {'A': inp['prefix'], 'B': inp.get('prefixB'), 'C': inp.get('prefixC')}
+        for (w, nickarg, code, real) in steps:
+            lines.append('more\t%d\t%s\t%s' % (cfg['batch'], wire.enc(prefixes[w].split('!', 1)[1]), wire.enc_opt(nickarg)))
         return lines
 
     def combine(prep_out, outs):
@@ -593,7 +658,7 @@ def gen_live_input(r, thorough=False):
     user = 'u' * r.randint(1, 10)
     host = ('h' * 70)[:max(1, hl - len('test!') - len(user) - 1)]
     cfg['botprefix'] = 'test!%s@%s' % (user, host)
-    nick = r.choice(['al', 'alice', 'Bob_', 'n' * 16, 'x' * 30, 'zoé' if r.random() < 0.3 else 'carol'])
+    nick = r.choice(['al', 'alice', 'Bob_', 'n' * 16, 'x' * 30, 'zoé' if r.random() < 0.3 else 'carol', 'Al[i]ce'])
     prefix = '%s!%s@%s' % (nick, 'id' * r.randint(1, 4), r.choice(['host', 'a.b.c.example.org', 'h' * 40]))
     target = r.choice(['#c', '#chan', '#' + 'c' * 30, '#ünï', 'test', 'test'])
     kw = {}
@@ -629,7 +694,41 @@ def gen_live_input(r, thorough=False):
     if r.random() < 0.5: text = text.rstrip()
     if r.random() < 0.03: text = '\x01' + text
     if r.random() < 0.02: text = text[:len(text) // 2] + '\n' + text[len(text) // 2:]
-    return {'cfg': cfg, 'prefix': prefix, 'target': target, 'kw': kw, 'text': text or 'x'}
+    inp = {'cfg': cfg, 'prefix': prefix, 'target': target, 'kw': kw, 'text': text or 'x'}
+    if r.random() < 0.45 and 'to' not in kw:
+        # a second caller (other user@host) using `more <A>`, sometimes a third one sharing A's user@host
+        inp['prefixB'] = '%s!%s@%s' % (r.choice(['bob', 'B[o]b', 'robert_']), r.choice(['bo', 'rob']), r.choice(['host.b', 'b.example.org']))
+        inp['prefixC'] = '%s!%s' % (r.choice(['carl', 'al_away']), prefix.split('!', 1)[1])
+        if r.random() < 0.3:
+            inp['nickref'] = ''.join(c.upper() if c.isascii() else c for c in nick).replace('[', '{') if r.random() < 0.7 else nick
+        acts = []
+        for _ in range(r.randint(1, 7)):
+            k = r.random()
+            if k < 0.35: acts.append(['A', 'more'])
+            elif k < 0.65: acts.append(['B', 'moreA'])
+            elif k < 0.9: acts.append(['B', 'more'])
+            else: acts.append(['C', 'more'])
+        inp['actions'] = acts
+    return inp
+
+
+def targeted_live_inputs(r, n_sweeps):
+    """replies made of ONE unbreakable multi-byte word, long enough to be truncated, so that (a) every chunk but
+    the last is as full as the character size allows and (b) the number of chunks has more digits than
+    reply.mores.maximum; the bot hostmask length is swept so that the chunk size hits every residue modulo the
+    character size (a chunk is exactly full for one of them)."""
+    out = []
+    for _ in range(n_sweeps):
+        ch, maximum = r.choice([('😀', 3), ('😀', 5), ('中', 50), ('😀', 50), ('中', 60), ('é', 60)])
+        base = r.randint(20, 80)
+        nick = r.choice(['al', 'alice', 'n' * 16])
+        for d in range(len(ch.encode('utf-8'))):
+            cfg = {'length': 0, 'maximum': maximum, 'instant': 1, 'batch': r.choice([1, 3]), 'nickprefix': r.random() < 0.5,
+                   'withnotice': False, 'inprivate': False, 'noticewhenprivate': True,
+                   'botprefix': 'test!u@' + 'h' * (base + d)}
+            out.append({'cfg': cfg, 'prefix': '%s!id@host' % nick, 'target': '#chan', 'kw': {},
+                        'text': ch * (512 * maximum)})
+    return out
 
 
 class LiveBatch(object):
@@ -717,6 +816,8 @@ def explore(ctx, n_pure, n_wrap, n_live, stream='c12', with_corpus=True):
     rl = rng.make(stream + '/live')
     for _ in range(n_live):
         LB.add(live_case(I, live(), gen_live_input(rl, ctx.thorough), 'live'))
+    for inp in targeted_live_inputs(rng.make(stream + '/targeted'), max(1, n_live // 350)):
+        LB.add(live_case(I, live(), inp, 'live-targeted'))
     return I, B, LB
 
 
